@@ -141,8 +141,17 @@ func Explore[O any](cfg Config[O]) (Result, error) {
 					if i >= len(jobs) {
 						return
 					}
-					o, err := w.Run(jobs[i].path)
-					results[i] = jres{o, err}
+					func() {
+						// A panic of the code under test inside a worker must not take the violations already found
+						// with it: it becomes the error of this path.
+						defer func() {
+							if r := recover(); r != nil {
+								results[i] = jres{err: fmt.Errorf("panic: %v", r)}
+							}
+						}()
+						o, err := w.Run(jobs[i].path)
+						results[i] = jres{o, err}
+					}()
 				}
 			}(workers[wi])
 		}
@@ -156,10 +165,20 @@ func Explore[O any](cfg Config[O]) (Result, error) {
 			return res, nil
 		}
 		var nextFrontier []node[O]
+		// Violations on the paths that did run are reported before an error on another path of the level ends the search.
 		for i, r := range results {
 			if r.err != nil {
+				for j, q := range results {
+					if q.err == nil && cfg.OnViolation != nil {
+						for _, v := range q.out.Viol {
+							cfg.OnViolation(jobs[j].path, v)
+						}
+					}
+				}
 				return res, fmt.Errorf("path %v: %w", jobs[i].path, r.err)
 			}
+		}
+		for i, r := range results {
 			// Determinism: the replayed prefix must give the observations recorded when it was first explored.
 			for k := range jobs[i].want {
 				if r.out.Obs[k] != jobs[i].want[k] {
